@@ -117,3 +117,22 @@ func LoadKeys() (Keys, error) {
 	}
 	return out, nil
 }
+
+// KeyringOf returns an in-memory keyring serving the private parts of the given keys, in the form
+// git-bug keeps them (armored private key block under the public key id).
+func KeyringOf(keys Keys) (repository.RepoKeyring, error) {
+	ring := memKeyring{}
+	for _, k := range keys {
+		var buf bytes.Buffer
+		w, err := armor.Encode(&buf, openpgp.PrivateKeyType, nil)
+		if err != nil {
+			return nil, err
+		}
+		if err := k.Private().Serialize(w); err != nil {
+			return nil, err
+		}
+		w.Close()
+		ring[k.Public().KeyIdString()] = buf.Bytes()
+	}
+	return keyringHolder{ring}, nil
+}
